@@ -12,5 +12,6 @@ import (
 	_ "verif/props/c17"
 	_ "verif/props/c18"
 	_ "verif/props/c19"
+	_ "verif/props/c20"
 	_ "verif/props/cmachine"
 )
